@@ -314,4 +314,4 @@ class ProdObservable(ObservableBase):
             self.name = name
 
     def apply(self, nn_state, samples):
-        return self.left * self.right.apply(nn_state, samples)
+        return float(self.left) * self.right.apply(nn_state, samples)
